@@ -319,6 +319,9 @@ class LinForm:
         return not self.items and self.pim == 0 and self.const == 0
 
 
+_LINEAR_BASES = ("var", "atan2", "atan", "asinh", "acosh", "acos", "asin", "log")
+
+
 def linform(t, angle=True):
     """decompose a real term into a linear form over opaque bases; with angle=True constants close to
     rational multiples of pi (denominator dividing 24) are read as those multiples"""
@@ -335,8 +338,22 @@ def linform(t, angle=True):
     if t.op == "add":
         c0, coefs = t.val
         f = linform(const(c0), angle)
+        rest = []
         for c, a in zip(coefs, t.args):
-            f = f.plus(linform(a, angle).scaled(c))
+            if a.op in _LINEAR_BASES or a is PI:
+                f = f.plus(linform(a, angle).scaled(c))
+            else:
+                rest.append(scale(c, a))
+        if rest:
+            # all non-linear summands form ONE opaque base (so that exp(x*x*c*c + x*x*s*s) has a single atom)
+            r = add(*rest)
+            k, core = _split_scaled(r)
+            if core is None:
+                f = f.plus(linform(r, angle))
+            else:
+                if k < 0:
+                    pass
+                f = f.plus(LinForm({core.id: (core, k)}))
         return f
     return LinForm({t.id: (t, Fraction(1))})
 
